@@ -139,37 +139,23 @@ theorem xml_idempotent_counterexample : type_of% @Verif.Proofs.C09Xml.xml_idempo
 /-- **SVG `bracketWriter`**: `bw.n` is the number of `]` at the end of everything written -/
 theorem xml_svg_bracket_count : type_of% @Verif.Proofs.C09Xml.svg_bracket_count := @Verif.Proofs.C09Xml.svg_bracket_count
 
-/-- **SVG text branch**: for every `bw.n` and grammatical text token the written bytes are well-formed character
-    data and complete no `]]>` (outside `style` / without a CSS minifier; inside `style` these bytes go to the
-    sub-minifier) -/
+/-- **SVG text branch**, every sub-minifier function: for every `bw.n` and grammatical text token the written bytes have
+    no `<`, no bare `&`, complete no `]]>` (the host checks the sub-minifier's result since d582c28); full `WfText` when
+    the bytes do not come from the sub-minifier -/
 theorem xml_svg_text_wellformed : type_of% @Verif.Proofs.C09Xml.svg_text_wellformed :=
   @Verif.Proofs.C09Xml.svg_text_wellformed
 
-/-- SVG text inside `style`, by contract `SubTextOk` on the sub-minifier -/
-theorem xml_svg_text_wellformed_sub : type_of% @Verif.Proofs.C09Xml.svg_text_wellformed_sub :=
-  @Verif.Proofs.C09Xml.svg_text_wellformed_sub
-
-/-- the contract is needed: a sub-minifier that only removes spaces creates `]]>` (K-C09-Xml-2 on the real code) -/
-theorem xml_svg_style_text_counterexample : type_of% @Verif.Proofs.C09Xml.svg_style_text_counterexample :=
-  @Verif.Proofs.C09Xml.svg_style_text_counterexample
-
-/-- **SVG CDATA branch**: text path safe for every sub-minifier with legal output; kept path a well-formed CDATA
-    section outside `style`, inside `style` by contract `NoCdEndOut` -/
+/-- **SVG CDATA branch**, every sub-minifier function with legal output: text path safe; a kept section is a
+    well-formed CDATA section (a result containing `]]>` is not used since d582c28) -/
 theorem xml_svg_cdata_wellformed : type_of% @Verif.Proofs.C09Xml.svg_cdata_wellformed :=
   @Verif.Proofs.C09Xml.svg_cdata_wellformed
 
-/-- the contract is needed: removing spaces inside a kept `style` CDATA section creates `]]>` (K-C09-Xml-2) -/
-theorem xml_svg_cdata_kept_counterexample : type_of% @Verif.Proofs.C09Xml.svg_cdata_kept_counterexample :=
-  @Verif.Proofs.C09Xml.svg_cdata_kept_counterexample
-
 /-- **SVG attribute values**: the preprocessed value is a sequence of units; `EscapeAttrVal` of any sequence of
-    units is a well-formed literal with that normalised value -/
+    units is a well-formed literal with that normalised value; the `style` attribute for every inline sub-minifier
+    function: quoted, quote-safe, no `<`, no bare `&` -/
 theorem xml_svg_attr_wellformed : type_of% @Verif.Proofs.C09Xml.svg_attr_wellformed :=
   @Verif.Proofs.C09Xml.svg_attr_wellformed
 
-/-- `EscapeAttrVal` does not repair a sub-minifier result with a bare `&` or `<` (K-C09-Xml-3 on the real code) -/
-theorem xml_svg_attr_contract_needed : type_of% @Verif.Proofs.C09Xml.svg_attr_contract_needed :=
-  @Verif.Proofs.C09Xml.svg_attr_contract_needed
 /-! ## Css -/
 
 /-- **CSS, declaration writer**: for all admissible values (`valsOk`: every lexeme a closed token of its type for the
